@@ -62,7 +62,7 @@ def slice_keep(tier: str):
                     and m["ctx"] in ("constraint", "ruleG", "agg", "weak"))
         if fam == "C12":
             return (m["q"] in ("choice", "choice_base") and m["fun"] == "max"
-                    and m["user"] in ("none", "sum", "min", "min_guard", "weak_realguard", "min_second", "body_use"))
+                    and m["user"] in ("none", "sum", "min", "min_guard", "weak_realguard", "min_second", "body_use", "min_twin", "weak_twin"))
         if fam == "C13":
             return m["extra"] == "none" and m["def"] in ("ub1", "eq1", "sum1", "cond_neg", "nobody", "all_global", "ub2")
         if fam == "C15":
@@ -70,7 +70,10 @@ def slice_keep(tier: str):
                     and m["fun"] in ("sum", "count", "max"))
         if fam == "C14":
             # every third program (by job id) of the two-literal rX/pq programs: math is the slowest pass
-            return m["ctx"] == "rX" and m["binders"] == "pq" and len(m["lits"]) == 2 and int(j["id"][:6], 16) % 3 == 0
+            # (negated aggregates always, also in the weak-constraint context)
+            neg = any(l.startswith("not ") and "#" in l for l in m["lits"])
+            return (m["binders"] == "pq" and len(m["lits"]) == 2
+                    and ((m["ctx"] == "rX" and (neg or int(j["id"][:6], 16) % 3 == 0)) or (m["ctx"] == "w" and neg)))
         if fam == "C16":
             return m["head"] == "h2b" and len(m["lits"]) == 3
         return True
